@@ -67,6 +67,10 @@ def check_curve(ctx, sy, grid, mean, inp):
     with sim.record_integrate(sy) as calls:
         sim.dirty_heap(ctx.rng, len(g))
         W = [float(v) for v in sr.compute_rise_curve(sy, g, mean)]
+    if not common.same_as_snapshot(g, np.array(grid, dtype=float)):
+        ctx.violation("impl-violation", "c17Holds", {"input": inp, "impl": [float(v) for v in g], "oracle": {
+            "name": "c17Holds", "result": False, "witness": {"why": "the caller's grid of levels was modified by compute_rise_curve"}}})
+        return W
     if len(W) != len(grid):
         ctx.violation("impl-violation", "c17Holds", {"input": inp, "impl": W, "oracle": {
             "name": "c17Holds", "result": False,
